@@ -5,3 +5,5 @@ cd "$(dirname "$0")"
 export CARGO_NET_OFFLINE=true
 (cd engine && cargo build --release --offline -p mc 2>&1 | tail -2)
 (cd engine && cargo build --release --offline -p c06 --bin c06q 2>&1 | tail -2)
+(cd realrayon && cargo build --release --offline 2>&1 | tail -2)
+(cd noparallel && cargo build --release --offline 2>&1 | tail -2)
